@@ -288,6 +288,55 @@ def sites_ok(world):
     return len(ps) == len(set(ps))
 
 
+def gen_site_mix_world(rng):
+    """directed stratum of `multi`: one function f1 (with a parameter and a keep whose argument is a run-time
+    expression of it) is invoked from two or three sites of f0 in different styles - keep with a literal, call
+    with a literal, plain call, bare reference (invoked with its defaults) - in every order. The analysis
+    must see every site: either the inner path gets one signature per distinct context (rejected as kept
+    twice) or all contexts are equal and every value is right."""
+    default = rng.choice(CONSTS)
+    styles = rng.sample(["keep", "keep2", "callargs", "call", "ref"], rng.choice([2, 2, 3]))
+    items = []
+    for st in styles:
+        c = rng.choice([default, rng.choice(CONSTS)])
+        if st in ("keep", "keep2"):
+            it = {"k": "keep", "path": "/k_%s" % st, "f": "f1", "args": [], "kwargs": []}
+            if rng.random() < 0.5:
+                it["args"] = [{"c": c}]
+            elif rng.random() < 0.7:
+                it["kwargs"] = [["a", {"c": c}]]
+            items.append(it)
+        elif st == "callargs":
+            items.append({"k": "call", "f": "f1", "args": [{"c": c}], "kwargs": []})
+        else:
+            items.append({"k": st, "f": "f1"})
+    inner = rng.choice(["keep_rt", "keep_rt", "keep_const", "datafn"])
+    if rng.random() < 0.5:
+        # the sharpest shape: an invocation with a non-default literal, then a bare reference (default context)
+        other = rng.choice([c for c in CONSTS if c != default])
+        first = rng.choice([{"k": "keep", "path": "/k_keep", "f": "f1", "args": [{"c": other}], "kwargs": []},
+                            {"k": "keep", "path": "/k_keep", "f": "f1", "args": [], "kwargs": [["a", {"c": other}]]},
+                            {"k": "call", "f": "f1", "args": [{"c": other}], "kwargs": []}])
+        items = [first, {"k": "ref", "f": "f1"}]
+        if rng.random() < 0.3:
+            items.reverse()
+        inner = "keep_rt"
+    f1_items = []
+    if inner == "keep_rt":
+        f1_items.append({"k": "keep", "path": "/inner", "f": "f2", "args": [{"r": [], "p": ["a"]}], "kwargs": []})
+    elif inner == "keep_const":
+        f1_items.append({"k": "keep", "path": "/inner", "f": "f2", "args": [{"c": rng.choice(CONSTS)}], "kwargs": []})
+    else:
+        f1_items.append({"k": "call", "f": "f3"})
+    funs = [
+        {"name": "f0", "params": [], "store_path": None, "tag": "f0#0", "reads": [], "items": items, "fails": None, "uses_ext": False, "ws": None},
+        {"name": "f1", "params": [["a", default]], "store_path": None, "tag": "f1#0", "reads": ["V0"], "items": f1_items, "fails": None, "uses_ext": False, "ws": None},
+        {"name": "f2", "params": [["a", rng.choice(CONSTS)]], "store_path": None, "tag": "f2#0", "reads": [], "items": [], "fails": None, "uses_ext": False, "ws": None},
+        {"name": "f3", "params": [], "store_path": "/df3", "tag": "f3#0", "reads": ["V0"], "items": [], "fails": None, "uses_ext": False, "ws": None},
+    ]
+    return prune({"vars": [["V0", rng.choice(VAR_VALUES)]], "funs": funs, "ext_version": 0, "extra": []})
+
+
 def gen_chain_world(rng):
     """directed stratum: a literal argument flows down a chain of keeps through run-time expressions
     (the case split of `sig_sound`: a callee's context must carry the caller's inputs)"""
